@@ -271,7 +271,7 @@ def sim_batch(ctx, prop, n, channels, tag="sim"):
             mk = events_props.markets_of(cfg)
             steps = cfg["simulation"]["sessions"][0]["iterationSteps"]
             cfg["FPS"] = {"class": "FundamentalPriceShock", "target": rng.choice(mk), "triggerTime": rng.randint(0, steps - 1),
-                          "priceChangeRate": rng.choice([-0.1, 0.2]), "shockTimeLength": rng.choice([1, 2, 3])}
+                          "priceChangeRate": rng.choice([-0.1, 0.2]), "shockTimeLength": rng.choice([1, 2, 3, 0])}
             cfg["OMS"] = {"class": "OrderMistakeShock", "target": rng.choice(mk), "triggerTime": rng.randint(0, steps - 1),
                           "priceChangeRate": float(rng.choice([-0.05, 0.05])), "orderVolume": rng.choice([1, 50]), "orderTimeLength": 3}
             for s in cfg["simulation"]["sessions"]:
